@@ -34,6 +34,10 @@ func init() {
 			{ID: "C13.R13", Text: "Close cannot hang on a parked event: the persistence wait is left ⇔ seq ≤ persistSeqNo ∨ closed, so throwing the delivery switch releases a handler that sits in the gate (and with it the connection's reader that the stream-close request needs) (same rule as C07.R2)", Run: c07r2},
 			{ID: "C13.R14", Text: "the close loops reach every observer and every position: Range over the wrapper visits all entries (same rule as C04.R9)", Run: wrapperFaithful},
 			{ID: "C13.R15", Text: "the close loops reach every observer and stream: every loop over a concurrent map runs to completion: the Range callback returns true on every path (frozen exception: markAbsentInstances stops at the error it returns)", Run: rangeComplete("stream.stream).Close", "stream.stream).closeAllStreams")},
+			{ID: "C13.R16", Text: "every position settled before Close is tracked: the position writer stores ⇔ inRange ∧ (¬found ∨ new ≥ cur) and under no condition of the stream's lifecycle state (same rule as C04.R1)", Run: c04r1},
+			{ID: "C13.R17", Text: "Close after the client stopped does not crash: no channel field that a method sends on is ever closed", Run: channelNeverClosed},
+			{ID: "C13.R18", Text: "every background activity Close stops was started before Close can run (same rule as C19.R5)", Run: healthStartPlain},
+			{ID: "C13.R19", Text: "a slow teardown step is not a crash: the HTTP server is shut down with the unbounded Shutdown(), or the error of a deadline variant does not reach panic", Run: boundedTeardownIsNotFatal},
 			{ID: "C13.R9", Text: "background waits are cancellable: the health checker blocks only in selects with a ctx.Done() case (same rule as C19.R2)", Run: c19r2},
 			{ID: "C13.R10", Text: "a cancel signal closes with closeWithCancel=true: the flag is raised in the branch of the wait that received the signal, before the close path runs, and is what Stream.Close receives", Run: c13r10},
 			{ID: "C13.R8", Text: "closeAllStreams closes every assigned vBucket: the serial branch iterates vbIDRange.Start..End inclusive, the parallel branch ranges over every tracked position", Run: closeAllRange},
